@@ -513,6 +513,16 @@ def check_U(line, obs):
             out.append(("U:grid-inner-product", "compute_scalar_product on grids: %s = %s, the exact integral of the product of the stored "
                         "piecewise-linear functions is %s | %s" % (k, float(got[k]), float(e), line[:200]), str(e), str(got[k])))
             break
+    if "ipVC" in got:
+        avg = [("average:inner-product-left", abs(got["ipVC"] - (got["ipAC"] + got["ipBC"]) / 2)),
+               ("average:inner-product-right", abs(got["ipCV"] - (got["ipAC"] + got["ipBC"]) / 2)),
+               ("average:integral", abs(got["intV"] - (got["intA"] + got["intB"]) / 2)),
+               ("average:size", abs(got["szV"] - max(got["szA"], got["szB"])))]
+        for nm, err in avg:
+            if err > tol * max(1, abs(got["ipAC"]), abs(got["ipBC"]), abs(got["intA"]), abs(got["intB"])):
+                out.append(("U:grid-" + nm, "the average of two grid landscapes (compute_average) does not behave like (A + B) / 2: %s is off by %s | %s"
+                            % (nm, float(err), line[:200]), "0", str(float(err))))
+                break
     laws = [("symmetric", abs(got["ipAB"] - got["ipBA"])), ("additive", abs(got["ipSC"] - got["ipAC"] - got["ipBC"])),
             ("additive-right", abs(got["ipCS"] - got["ipAC"] - got["ipBC"])), ("homogeneous", abs(got["ip2AB"] - 2 * got["ipAB"]))]
     for nm, err in laws:
